@@ -458,6 +458,56 @@ def device_sequences(g, devices):
     return out
 
 
+def twin_programs(devices):
+    """The same instruction text twice in one program, meaning two different things: the value of a .set variable, the
+    register behind a .def alias or the location counter has changed in between (whatever is remembered per line text or
+    per operand text shows here); a line without effect (.csegsize, .pragma, #pragma) between the device and a form it lacks."""
+    import prog as P
+    out = []
+    imm = [("ldi", [P.R(16)], 1), ("cpi", [P.R(17)], 1), ("subi", [P.R(18)], 1), ("andi", [P.R(19)], 1), ("ori", [P.R(20)], 1), ("sbci", [P.R(21)], 1),
+           ("adiw", [P.R(24)], 1), ("sbiw", [P.R(26)], 1), ("in", [P.R(3)], 1), ("lds", [P.R(4)], 1), ("bld", [P.R(5)], 1), ("sbrc", [P.R(6)], 1),
+           ("out", [P.R(7)], 0), ("sts", [P.R(8)], 0), ("sbi", [P.E(2)], 0), ("cbi", [P.E(3)], 1), ("jmp", [], 0), ("call", [], 0), ("rjmp", [], 0), ("brne", [], 0)]
+    for mn, fixed, pos in imm:
+        for a, b in ((1, 2), (7, 0), (5, 6)):
+            def ops(e):
+                return (fixed + [P.E(e)]) if pos else ([P.E(e)] + fixed)
+            for nm in ("n", "Count", "VAL"):
+                out.append(("", [P.setv(nm, a), P.instr(mn, *ops(P.sym(nm))), P.setv(nm, b), P.instr(mn, *ops(P.sym(nm))), P.label("after"), P.data(2, P.E(P.sym("after")))]))
+                out.append(("", [P.setv(nm, a), P.instr(mn, *ops(P.sym(nm))), P.instr("nop"), P.setv(nm, P.binop("+", P.sym(nm), P.lit(b + 1))), P.instr(mn, *ops(P.sym(nm))),
+                                 P.instr(mn, *ops(P.sym(nm)))]))
+        if mn not in ("rjmp", "brne", "jmp", "call"):
+            out.append(("", [P.instr(mn, *((fixed + [P.E(P.sym("pc"))]) if pos else ([P.E(P.sym("pc"))] + fixed))) for _ in range(3)]))
+    # aliases bound anew between two equal lines: to a register the mnemonic takes (other code) and to one it does not take (refused)
+    cls = [("movw", 16, 20, 17, [P.R(2)]), ("ldi", 16, 31, 15, [P.E(1)]), ("ser", 17, 30, 3, []), ("muls", 16, 18, 8, [P.R(17)]), ("fmul", 16, 23, 24, [P.R(17)]),
+           ("mulsu", 17, 22, 25, [P.R(16)]), ("adiw", 24, 28, 25, [P.E(1)]), ("cpi", 20, 16, 0, [P.E(9)]), ("inc", 1, 31, 16, []), ("mov", 0, 31, 7, [P.R(1)])]
+    for mn, r1, r2, bad, rest in cls:
+        for nm in ("dst", "Tmp"):
+            for rb in (r2, bad):
+                use = P.instr(mn, P.E(P.sym(nm)), *rest)
+                out.append(("", [P.defr(nm, r1), use, P.undef(nm), P.defr(nm, rb), use, P.instr("ret")]))
+                out.append(("", [P.defr(nm, r1), use, P.defr(nm, rb), use, P.instr("ret")]))
+                out.append(("", [P.defr(nm, r1), use, P.seg("data"), P.undef(nm), P.defr(nm, rb), P.seg("code"), use]))
+    # lines without effect between the selection of a device and a form the device lacks / has
+    # (.list/.nolist/.listmac/.overlap are refused by this assembler: not among the lines without effect)
+    noops = [".csegsize 12", ".csegsize 10", ".pragma option use core v1", "#pragma partinc 0", ".pragma", ".csegsize 14", ".csegsize 16"]
+    forms = [("break", []), ("spm", []), ("elpm", []), ("eijmp", []), ("eicall", []), ("mul", [P.R(1), P.R(2)]), ("movw", [P.R(2), P.R(4)]), ("jmp", [P.E(0)]), ("lpm", []),
+             ("nop", []), ("des", [P.E(3)]), ("push", [P.R(1)]), ("lds", [P.R(16), P.E(0x60)]), ("lds", [P.R(3), P.E(0x60)])]
+    for dn in sorted(devices):
+        if not dn or (dn not in ("AT94K", "ATtiny20", "ATtiny10", "AT90S1200", "ATmega8", "ATmega48", "ATtiny13", "ATmega2560", "ATxmega128A1") and hash_name(dn) % 6):
+            continue
+        for k, (mn, ops) in enumerate(forms):
+            t = noops[(k + hash_name(dn)) % len(noops)]
+            use = P.instr(mn, *ops)
+            out.append((dn, [P.line("device", n=dn), P.line("noop", text=t), use]))
+            out.append((dn, [P.line("device", n=dn), P.instr("nop"), use, P.line("noop", text=t), use]))
+            out.append((dn, [P.line("macro", n="cfg"), P.line("noop", text=t), P.line("endm"), P.line("device", n=dn), P.call("cfg"), use]))
+    return out
+
+
+def hash_name(n):
+    return sum(ord(ch) * (i + 1) for i, ch in enumerate(n))
+
+
 GENS = {"C01": gen_c01, "C04": gen_c04, "C13": gen_c13}
 
 
@@ -544,13 +594,15 @@ def check(prop, tier, seed):
                       "expected": {"ok": exp["ok"], "words": ["%04x" % w for w in exp["w"]]}}, matcher)
         v.summary(lambda x: (x["mn"], x["device"], x["observed"]["r"], "expected " + ("ok" if x["expected"]["ok"] else "err")))
         seqcov = None
-        if prop in ("C13", "C01"):
+        if prop in ("C13", "C01", "C04"):
             # whole programs: forms of one mnemonic in sequence (each earlier form may be one the device has), then a label
             import prog as P
-            seqs = device_sequences(g, devices)
+            seqs = device_sequences(g, devices) if prop != "C04" else []
             if prop == "C01":
                 # every legal form in the company of other forms and followed by a label, with no device and on the reduced core
                 seqs = [(dn, pr) for dn, pr in seqs if dn == "" or "Avr8l" in devices[dn]["flags"]]
+            # equal lines that mean different things; lines without effect next to device-dependent forms
+            seqs += [(dn, pr) for dn, pr in twin_programs(devices) if (dn != "") == (prop == "C13")]
             sjobs = [{"k": "str", "id": i, "src": P.render(pr)} for i, (dn, pr) in enumerate(seqs)]
             sres = run_jobs(sjobs)
             sevents = [P.event(pr, sres[i], P.devs_for(pr, devices), True, False, ()) for i, (dn, pr) in enumerate(seqs)]
@@ -562,7 +614,7 @@ def check(prop, tier, seed):
                           "tag": "sequence", "observed": {"r": sres[i]["r"], "text": sres[i].get("text", "")[:200], "words": [sres[i].get("code", "")[:80]]},
                           "expected": {"ok": bool(srej[i].get("ok")), "words": []}}, matcher)
             seqcov = {"programs": len(seqs), "rejected": len(srej), "states": sstats["states"],
-                      "rule": "per device and form: up to four other forms of the same mnemonic, the form, a label, a jump to it and its value"}
+                      "rule": "per device and form: up to four other forms of the same mnemonic, the form, a label, a jump to it and its value; twin lines: the same instruction text twice with a .set variable reassigned, a .def alias bound anew (to a register the mnemonic takes / does not take) or the location counter moved in between; lines without effect (.csegsize, .pragma, #pragma) between the device selection and forms the device has / lacks"}
             stats["states"] += sstats["states"]
             stats["transitions"] += sstats["transitions"]
         mc = None
